@@ -679,6 +679,10 @@ func (bal *Balancer) balanceBlock(blkid arvados.SizedDigest, blk *BlockState) ba
 		// trashing replicas that aren't optimal positions for
 		// any storage class.
 		protMnt := map[*KeepMount]bool{}
+		// Devices (with non-empty DeviceID) whose replication
+		// has already been counted in replProt: a replica seen
+		// through several mounts of one device is one replica.
+		protDev := map[string]bool{}
 		// Replication planned so far (corresponds to wantMnt).
 		replWant := 0
 		// Protected replication (corresponds to protMnt).
@@ -697,7 +701,12 @@ func (bal *Balancer) balanceBlock(blkid arvados.SizedDigest, blk *BlockState) ba
 			if replProt < desired && slot.repl != nil && !protMnt[slot.mnt] {
 				unsafeToDelete[slot.repl.Mtime] = true
 				protMnt[slot.mnt] = true
-				replProt += slot.mnt.Replication
+				if !protDev[slot.mnt.DeviceID] {
+					replProt += slot.mnt.Replication
+					if slot.mnt.DeviceID != "" {
+						protDev[slot.mnt.DeviceID] = true
+					}
+				}
 			}
 			if replWant < desired && (slot.repl != nil || !slot.mnt.ReadOnly) {
 				slots[i].want = true
@@ -731,9 +740,13 @@ func (bal *Balancer) balanceBlock(blkid arvados.SizedDigest, blk *BlockState) ba
 
 		if !underreplicated {
 			safe := 0
+			safeDev := map[string]bool{}
 			for _, slot := range slots {
-				if slot.repl == nil || !bal.mountsByClass[class][slot.mnt] {
+				if slot.repl == nil || !bal.mountsByClass[class][slot.mnt] || safeDev[slot.mnt.DeviceID] {
 					continue
+				}
+				if slot.mnt.DeviceID != "" {
+					safeDev[slot.mnt.DeviceID] = true
 				}
 				if safe += slot.mnt.Replication; safe >= desired {
 					break
